@@ -264,10 +264,10 @@ def tryWithout (ch : Chain) (without : List Nat) : Chain :=
     | .ok ch2 => restore ch2 true
     | .error _ => restore ch1 false
 
-def initState (funcs : List CP) : Chain :=
+def initState (funcs : List CP) (cannot0 : List Nat := []) : Chain :=
   (funcs.zip (List.range funcs.length)).map fun (c, i) =>
     let autoDesired := !c.required && !c.desired && c.cls != .finalFunc && (stripUnusedT c.out).isEmpty
-    { c := c, pos := i, inc := c.required,
+    { c := c, pos := i, inc := c.required, cannot := cannot0.contains c.id,
       mcOut := c.hasMustConsume, mcRet := true,
       wanted := autoDesired, wantedInCluster := autoDesired && c.cluster != 0 }
 
@@ -306,9 +306,9 @@ def proposalLoop : Nat → Chain → Chain
     if countExcluded ch' == countExcluded ch then ch' else proposalLoop fuel ch'
 
 /-- `computeDependenciesAndInclusion` (after reorder) -/
-def computeInclusion (ti : TyInfo) (funcs : List CP) : Except IncErr Chain :=
+def computeInclusion (ti : TyInfo) (funcs : List CP) (cannot0 : List Nat := []) : Except IncErr Chain :=
   let initPos := (funcs.zip (List.range funcs.length)).findSome? fun (c, i) => if c.cls == .initFunc then some i else none
-  let ch := initState funcs
+  let ch := initState funcs cannot0
   let ch := providesReturns ti ch initPos
   match validate true ch with
   | .error e => .error e
